@@ -541,6 +541,11 @@ class Dynamic(Parameter):
         """
         super().__set__(obj,val)
 
+        if obj is not None and obj._param__private.refs.get(self.name) is val:
+            # val was taken as a reference (allow_refs): what it resolves
+            # to has been stored, val itself is not a value generator
+            return
+
         dynamic = callable(val)
         if dynamic: self._initialize_generator(val,obj)
         if obj is None: self._set_instantiate(dynamic)
